@@ -12,6 +12,7 @@ import (
 	stdjson "encoding/json"
 	"fmt"
 	"os"
+	"reflect"
 	"sort"
 	"testing"
 )
@@ -73,6 +74,41 @@ func TestGovcBounded(t *testing.T) {
 		case e3 != nil && !bytes.Equal(c.Bytes(), pre):
 			record("indent-error-changes-buffer", doc)
 		}
+		if v1, v2 := Valid(doc), stdjson.Valid(doc); v1 != v2 {
+			if v1 {
+				record("valid-accepts-invalid", doc)
+			} else {
+				record("valid-rejects-valid", doc)
+			}
+		}
+		// HTMLEscape: for a valid text an equivalent text without raw < > & U+2028 U+2029 is appended;
+		// for an invalid one the buffer stays as it was (the property does not ask for encoding/json's bytes)
+		var h1 bytes.Buffer
+		h1.Write(pre)
+		HTMLEscape(&h1, doc)
+		if !stdjson.Valid(doc) {
+			if !bytes.Equal(h1.Bytes(), pre) {
+				record("htmlescape-invalid-text-changes-buffer", doc)
+			}
+		} else {
+			out := h1.Bytes()
+			if !bytes.HasPrefix(out, pre) {
+				record("htmlescape-overwrites-buffer", doc)
+			} else {
+				out = out[len(pre):]
+				if bytes.ContainsAny(out, "<>&") || bytes.Contains(out, []byte("\xe2\x80\xa8")) || bytes.Contains(out, []byte("\xe2\x80\xa9")) {
+					record("htmlescape-leaves-raw-html-character", doc)
+				}
+				var v1, v2 interface{}
+				d1 := stdjson.NewDecoder(bytes.NewReader(out))
+				d1.UseNumber()
+				d2 := stdjson.NewDecoder(bytes.NewReader(doc))
+				d2.UseNumber()
+				if e1, e2 := d1.Decode(&v1), d2.Decode(&v2); e1 != nil || e2 != nil || !reflect.DeepEqual(v1, v2) {
+					record("htmlescape-output-not-equivalent", doc)
+				}
+			}
+		}
 	}
 	var rec func(depth int)
 	rec = func(depth int) {
@@ -89,6 +125,15 @@ func TestGovcBounded(t *testing.T) {
 		}
 	}
 	rec(0)
+	// outside the alphabet: numbers beyond float64, NUL bytes, control characters, escapes, HTML characters, U+2028/9
+	bs := string(rune(92))
+	for _, d := range []string{"1e400", "[1E999]", "-1e-400", "[-1e400,1]", `{"a":1e999}`, "0e0", "-0.0e+0", "1\x00", "1\x00x", "[1]\x00", "\x00", "[\x001]", "\"\x1f\"", "\"\x00\"", "[\"a\x01\"]", "{\"k\x02\":1}",
+		"[\"" + bs + "u00\x1f1\"]", "\"" + bs + "u00zz\"", "\"" + bs + "uD800" + bs + "u00zz\"", "\"\x7f\"", "\"\t\"", "[\"<&>\"]", "{\"<\":\"&\"}", "\"" + string(rune(0x2028)) + string(rune(0x2029)) + "\"", "<>&", "\xe2\x80", "\xe2\x80\xa8\xe2\x80\xa9",
+		"\"" + bs + "u003c" + bs + "/" + bs + "b\"", " \t\r\n[ \t\r\n] \t\r\n", "\"\xff\"", "[\"\xed\xa0\x80\"]"} {
+		buf = append(buf[:0], d...)
+		check()
+	}
+	buf = buf[:0]
 	var names []string
 	for k := range classes {
 		names = append(names, k)
@@ -97,5 +142,5 @@ func TestGovcBounded(t *testing.T) {
 	for _, k := range names {
 		fmt.Printf("BOUNDED-CLASS %s example=%q\n", k, classes[k])
 	}
-	fmt.Printf("BOUNDED-OK cases=%d bound=\"all byte strings of length 1..%d over %q, destination pre-filled with %q, Compact and Indent(prefix '>', indent ' ') against encoding/json\"\n", n, maxLen, alphabet, pre)
+	fmt.Printf("BOUNDED-OK cases=%d bound=\"all byte strings of length 1..%d over %q, destination pre-filled with %q, Compact, Indent(prefix '>', indent ' '), Valid and HTMLEscape against encoding/json, plus 31 documents outside the alphabet (numbers beyond float64, NUL, control characters, escapes, HTML characters)\"\n", n, maxLen, alphabet, pre)
 }
